@@ -80,6 +80,15 @@ spec fn count_heads(s: Seq<Token>, upto: int) -> nat
 {
     if upto <= 0 { 0 } else { count_heads(s, upto - 1) + (if upto - 1 < s.len() && is_head(s[upto - 1]) { 1nat } else { 0nat }) }
 }
+/// C17: a statement's source text starts where its head token starts and ends where the last token consumed for it ends
+/// (tokens j..=k of the stream, no other statement's head among them)
+#[verifier::opaque]
+spec fn stmt_span_at(toks: Seq<Token>, sp: Span, j: int, k: int) -> bool {
+    0 <= j <= k < toks.len() && is_head(toks[j]) && sp.offs.0 == toks[j].span.offs.0
+    && sp.offs.0 + sp.len == span_end(toks[k].span)
+    && (forall|m: int| j < m <= k ==> !is_head(#[trigger] toks[m]))
+}
+spec fn stmt_span_ok(toks: Seq<Token>, sp: Span) -> bool { exists|j: int, k: int| stmt_span_at(toks, sp, j, k) }
 /// the operand tokens an instruction accepts are registers, literals and labels: none of them begins a statement
 proof fn lemma_operands_not_heads(kind: InstrKind, rest: Seq<Token>)
     requires accepts(kind, rest) is Some,
